@@ -1,0 +1,7 @@
+//go:build !verif
+
+package ipfslog
+
+// verifHook is a no-op unless the package is built with the verif tag
+// (verification instrumentation, see verif_on.go).
+func verifHook(string, interface{}) {}
